@@ -30,7 +30,7 @@ def km_list(tier):
 
 
 def bounds(tier):
-    return {"l": "0..4", "K,M": km_list(tier), "subject_type": 2, "depth": 2 if tier == "quick" else 3,
+    return {"l": "0..4", "K,M": km_list(tier), "subject_type": 2, "depth": 2 if tier == "quick" else "3 (2 for shells with K*M >= 9)",
             "primitive_permutations": "all K! at depth 0", "scale_factors": SCALES,
             "linearity": "every integral/evaluation block class, each shell slot"}
 
@@ -168,7 +168,9 @@ def evaluate(cfg):
         depth_of = {}
         seed = System(shells, None, env)
         depth_of[seed.key()] = 0
-        ex.bfs(seed, make_rewrites(depth_of, cfg.get("branch")), depth=2 if quick else 3)
+        # depth 3 for the smaller shells; the largest ones (K*M >= 9) stop at depth 2 (their depth-0 alphabet alone has
+        # up to 61 rewrites)
+        ex.bfs(seed, make_rewrites(depth_of, cfg.get("branch")), depth=2 if (quick or cfg["K"] * cfg["M"] >= 9) else 3)
         return o
     # block-level linearity in the coefficient matrix of each shell slot
     from gbasis.evals.eval import Eval
